@@ -550,7 +550,7 @@ class Exec:
             m = re.match(r"drop\(.+?\) -> \[return: (bb\d+), unwind.*\];?$", s)
             if m:
                 return self.exec_block(f, m.group(1), env, pc, depth, steps + 1)
-            m = re.match(r"(.+?) = (.*panic.*?)\((.*)\) -> unwind.*;?$", s)
+            m = re.match(r"(.+?) = (.*panic.*?)\((.*)\) -> (?:unwind.*|bb\d+);?$", s)
             if m:
                 self.panics.append((pc, f"{f.name}: {m.group(2).strip()}"))
                 return []
@@ -610,14 +610,14 @@ INTRINSICS = {
 # producing MIR
 # --------------------------------------------------------------------------
 
-def dump_mir(repo, features, scratch, tag):
+def dump_mir(repo, features, scratch, tag, debug_assertions=False):
     """MIR text of retrofire-core built from `repo` with the given feature list"""
-    td = os.path.join(scratch, f"mir_target_{tag}")
+    td = os.path.join(scratch, f"mir_target_{tag}{'_dbg' if debug_assertions else ''}")
     cmd = ["cargo", "+nightly", "rustc", "--offline", "--lib", "--no-default-features", "--target-dir", td,
            "--manifest-path", os.path.join(repo, "core", "Cargo.toml")]
     if features:
         cmd += ["--features", ",".join(features)]
-    cmd += ["--", "-Zunpretty=mir", "-C", "debug-assertions=off", "-C", "overflow-checks=on"]
+    cmd += ["--", "-Zunpretty=mir", "-C", "debug-assertions=" + ("on" if debug_assertions else "off"), "-C", "overflow-checks=on"]
     env = dict(os.environ, CARGO_NET_OFFLINE="true")
     env.pop("RUSTFLAGS", None)
     p = subprocess.run(cmd, capture_output=True, text=True, env=env)
